@@ -14,7 +14,7 @@
 
    Outside the model (oracles assumed not to fire; see checks/C45.json): context cancellation and
    timers, round mismatch / round timeout flags, missing-node state errors and their network sync,
-   fees (IsFeeEnabled = false), the MinBlockSize test (waitOver = true), signatures (a boolean
+   the MinBlockSize test (waitOver = true), signatures (a boolean
    per transaction), the block's own hash/signature and magic-block reference. *)
 From Coq Require Export List ZArith Bool Arith Lia.
 Export ListNotations.
@@ -30,7 +30,10 @@ Record bg_txn := {
   bt_fee : Z;
   bt_cdate : Z;           (* CreationDate *)
   bt_valbig : bool;       (* Value > config.MaxTokenSupply *)
-  bt_cost : option Z;     (* EstimateTransactionCost against the LFB; None = error *)
+  bt_cost : option Z;     (* EstimateTransactionCost against the LFB; None = error (verifier, promoted loop, built-ins) *)
+  bt_gcost : option Z;    (* cost returned by EstimateTransactionCostFee: the budget source of the pool iteration *)
+  bt_gfee : Z;            (* fee returned by EstimateTransactionCostFee (0 for exempt functions) *)
+  bt_exempt : bool;       (* TransactionData <> "" and FunctionName is on ChainConfig.TxnExempt *)
   bt_size : Z;            (* len(TransactionData) *)
   bt_fname : Z;           (* 0: FunctionName is not a built-in name (or not a contract call); k>0: built-in name k *)
   bt_valid : bool;        (* passes the non-time checks of ValidateWrtTimeForBlock (hash, signature, ids) *)
@@ -41,7 +44,8 @@ Record bg_txn := {
 
 Definition bg_set_nonce (t : bg_txn) (n : Z) : bg_txn :=
   {| bt_hash := bt_hash t; bt_client := bt_client t; bt_nonce := n; bt_fee := bt_fee t;
-     bt_cdate := bt_cdate t; bt_valbig := bt_valbig t; bt_cost := bt_cost t; bt_size := bt_size t;
+     bt_cdate := bt_cdate t; bt_valbig := bt_valbig t; bt_cost := bt_cost t; bt_gcost := bt_gcost t;
+     bt_gfee := bt_gfee t; bt_exempt := bt_exempt t; bt_size := bt_size t;
      bt_fname := bt_fname t; bt_valid := bt_valid t; bt_kind := bt_kind t; bt_value := bt_value t;
      bt_to := bt_to t |}.
 
@@ -50,7 +54,9 @@ Record bg_cfg := {
   bc_maxbytes : Z;        (* MaxByteSize *)
   bc_tol : Z;             (* transaction.TXN_TIME_TOLERANCE *)
   bc_bdate : Z;           (* b.CreationDate (the clock, recorded) *)
-  bc_miner : Z            (* client id of the generator (built-in transactions) *)
+  bc_miner : Z;           (* client id of the generator (built-in transactions) *)
+  bc_fee : bool;          (* ChainConfig.IsFeeEnabled *)
+  bc_minfee : Z           (* ChainConfig.MinTxnFee *)
 }.
 
 (* common.WithinTime(o, ts, seconds) *)
@@ -232,9 +238,12 @@ Section BlockGen.
   (* txnIterHandlerFunc, one pool entry *)
   Definition bg_iter_step (cfg : bg_cfg) (g : bg_gs) (t : bg_txn) : bg_iter bg_gs :=
     if bt_valbig t then ItAbort else
-    match bt_cost t with
+    match bt_gcost t with
     | None => ItCont g
     | Some c =>
+        (* fees enabled: txn.ValidateFee(TxnExempt, max(MinTxnFee, estimated fee)) *)
+        if bc_fee cfg && negb (bt_exempt t) && (bt_fee t <? Z.max (bc_minfee cfg) (bt_gfee t))
+        then ItCont (bg_mark_invalid g t) else
         (* a pool transaction carrying a built-in function name is marked invalid and skipped *)
         if negb (bt_fname t =? 0) then ItCont (bg_mark_invalid g t) else
         (* cost >= MaxBlockCost - tii.cost *)
